@@ -97,7 +97,10 @@ fn dump_crate<'tcx>(tcx: TyCtxt<'tcx>, nonce: &str, config: &str) -> J {
     for ldid in keys {
         let did = ldid.to_def_id();
         let kind = tcx.def_kind(did);
-        if !matches!(kind, DefKind::Fn | DefKind::AssocFn | DefKind::Closure) {
+        if !matches!(
+            kind,
+            DefKind::Fn | DefKind::AssocFn | DefKind::Closure | DefKind::InlineConst | DefKind::AnonConst
+        ) {
             continue;
         }
         bodies.push(mirjson::dump_body(tcx, ldid));
